@@ -266,6 +266,22 @@ def run(ctx):
                     for x, y in zip(a[:200], b[:200]):
                         norm.compute(x, y)
                         norm.compute(y, x)
+                # the same operands in other memory layouts and element types
+                if i % 4 == 0:
+                    A2, B2 = np.array(a[:24]).reshape(4, 6), np.array(b[:24]).reshape(4, 6)
+                    ro = np.array(b[:6])
+                    ro.flags.writeable = False
+                    for what, (x, y) in {
+                        "transposed": (A2.T, B2.T), "fortran order with C order": (np.asfortranarray(A2), B2), "strided": (np.array(a)[:24:3], np.array(b)[:24:3]),
+                        "reversed": (np.array(a[:16])[::-1], np.array(b[:16])[::-1]), "read-only row broadcast over a batch": (A2, np.broadcast_to(ro, (4, 6))),
+                        "scalar with transposed": (float(a[0]), B2.T), "0-d with batch": (np.array(a[0]), np.array(b[:8])), "batch with 0-d": (np.array(a[:8]), np.array(b[0])),
+                        "array of one with batch": (np.array(a[:1]), np.array(b[:8])), "list with float": (list(a[:5]), float(b[0])),
+                        "float32 batches": (np.array([0.25, 0.5, 0.75, 1.0], dtype=np.float32), np.array([0.5, 0.5, 0.25, 0.0], dtype=np.float32)),
+                        "boolean flags": (np.array([True, False, True]), np.array([True, True, False])),
+                    }.items():  # fmt: skip
+                        norm.compute(x, y)
+                        norm.compute(y, x)
+                        ctx.hit("operand form:" + what)
                 # monotonicity / identity / annihilator material: fixed b, sorted a
                 bb = rnd.choice(b)
                 norm.compute(np.array(sorted(a)), bb)
@@ -308,6 +324,7 @@ def run(ctx):
         reach.report(ctx)
     ctx.exhaustive = True
     ctx.extra["exhaustive_space"] = f"all pairs and triples of the dyadic grid k/2^{m} per norm (plus non-exhaustive random doubles)"
+    ctx.require("operand form:transposed", "operand form:0-d with batch", "operand form:read-only row broadcast over a batch")
     for name in R.REF:
         ctx.require(f"hook:{name}.compute")
     if ctx.nshards == 1 or True:
